@@ -589,6 +589,41 @@ func (s *SliceV) setElem(i *Term, v Val) *SliceV {
 }
 
 // mergeVal builds ite(c, a, b) on values.
+// detach returns a copy of a value that shares no backing array with program variables (ghost snapshots must not
+// follow later in-place element stores the way aliasing Go slices do).
+func detach(v Val) Val {
+	switch x := v.(type) {
+	case *SliceV:
+		c := *x
+		c.Tag, c.ViewTag, c.ViewOff = 0, 0, nil
+		if x.Vec != nil {
+			c.Vec = make([]Val, len(x.Vec))
+			for i, e := range x.Vec {
+				c.Vec[i] = detach(e)
+			}
+		}
+		return &c
+	case *StructV:
+		f := make(map[string]Val, len(x.F))
+		for k, e := range x.F {
+			f[k] = detach(e)
+		}
+		return &StructV{K: x.K, F: f}
+	}
+	return v
+}
+
+// scalarVec: an explicit vector of scalars (long ones are merged as whole arrays: ite(c, A, B) keeps
+// f(ite(c, A, B)) = ite(c, f(A), f(B)) visible to the solver, which an element-wise merge hides)
+func scalarVec(s *SliceV) bool {
+	for _, e := range s.Vec {
+		if _, ok := e.(SV); !ok {
+			return false
+		}
+	}
+	return true
+}
+
 func mergeVal(c *Term, a, b Val) Val {
 	if c.IsTrue() {
 		return a
@@ -618,7 +653,18 @@ func mergeVal(c *Term, a, b Val) Val {
 		if x == y {
 			return x
 		}
-		if x.IsV && y.IsV && len(x.Vec) == len(y.Vec) {
+		if x.IsV && y.IsV && len(x.Vec) == len(y.Vec) && len(x.Vec) >= 64 && scalarVec(x) && scalarVec(y) {
+			same := true
+			for i := range x.Vec {
+				if !sameVal(x.Vec[i], y.Vec[i]) {
+					same = false
+					break
+				}
+			}
+			if same {
+				return x
+			}
+		} else if x.IsV && y.IsV && len(x.Vec) == len(y.Vec) {
 			nv := make([]Val, len(x.Vec))
 			same := true
 			for i := range nv {
